@@ -158,13 +158,13 @@ func (l *AbstractListener) ConnectDirectly(conn net.Conn) bool {
 	if forward == nil {
 		return false
 	}
-	if forward.Host == "" || forward.Scheme == "" {
+	if forward.SocketAddress() == "" || forward.Scheme == "" {
 		return false
 	}
-	log.Debugf("Dialing direct connection to %s %s", forward.Scheme, forward.Host)
+	log.Debugf("Dialing direct connection to %s %s", forward.Scheme, forward.SocketAddress())
 	var direct net.Conn
 	var err error
-	direct, err = net.Dial(forward.Scheme, forward.Host)
+	direct, err = net.Dial(forward.Scheme, forward.SocketAddress())
 	if err == nil {
 		direct = streams.NewNamedConnection(direct, fmt.Sprintf("%v", forward))
 		err = streams.PipeData(conn, direct)
@@ -258,7 +258,7 @@ func (l *SocketListener) Start(upstreams *upstream.Upstreams, config cert.Config
 
 	log.Infof("Starting SocketListener %v", l.String())
 	l.shutdown = make(chan bool, 1)
-	l.netListener, err = net.Listen(l.Address.Scheme, l.Address.Host)
+	l.netListener, err = net.Listen(l.Address.Scheme, l.Address.SocketAddress())
 
 	if err == nil {
 		go l.accept()
